@@ -5,34 +5,38 @@ import re
 from common import standard_prologue, run_sharded, HX, DRV, enc, dec, VERIF
 
 CLAIM = {
-    "category": "proof",
     "technique": ("Lean 4 theorems about an executable model of the winnow-based ledger parser (combinators with winnow's "
-                  "backtrack/cut/reset semantics) and of the Display printer + differential correspondence of trees, spans, "
-                  "error offsets and formatted text against the real parse_ledger / okane format on grammar-directed and "
-                  "malformed text, with the property's own oracles evaluated on the real code"),
-    "text": ("PARTIAL. Proof (Lean, all inputs, any display-width function): the entry loop of parse_ledger composed with "
-             "FormatOptions::format reads back every list of entries that round-trip one by one (C05_format_parse), hence "
-             "parse(format t) = parse t and format(format t) = format t for such ledgers (C05_roundtrip_partial, "
-             "C05_idempotent_partial); the per-construct round trip parse(print x ++ rest) = ok x rest is proved for the "
-             "directives include, apply tag (key, key: text, key:: expr), end apply tag and top-level comments of any "
-             "number of lines (C05_entry_partial, C05_roundtrip_directives) and for tag-word and key-value metadata lines "
-             "(C05_metadata_partial) and for the posting account (C05_account: words joined by single blanks before any "
-             "admissible follower), each for ALL trees satisfying the decidable predicate wfEntry/wfMetadata. The full "
-             "statements C05_entry_full, C05_image_full, C05_roundtrip_full, C05_idempotent_full, C05_eof_full are kept as "
-             "definitions; the code violates four of them and the negations are proved from kernel-evaluated witnesses "
-             "(not_C05_image_full, not_C05_roundtrip_full, not_C05_idempotent_full: known findings F27/F28, Unicode white "
-             "space the parser does not treat as blank; not_C05_eof_full: account + one blank at end of file, outside the "
-             "grammar). NOT carried by theorems, only by the correspondence stream and the oracles on the real code: the "
-             "round trip of transactions (header, posting line after the account, amounts/value expressions, lots, costs, "
-             "balances, metadata comments), of account and commodity declarations, the image property (parsed trees are "
-             "wfEntry up to canonEntry; checked by the driver on every accepted text), and the acceptance of the documented "
-             "grammar (oracle: every grammar-derived text is accepted by the real parser). The model parser agrees with "
-             "the real one on trees, entry spans, error offsets/line_start and formatted output on every generated text."),
-    "note": ("winnow 0.7.6 combinators, chrono date acceptance, Rust str::trim*/lines and unicode-width are modelled, not "
-             "verified; value expressions and numeric literals are the models of C07/C08 (Okane.ExprSyntax, Okane.Literal). "
-             "doc/syntax.md is read with the repairs of evident informalities listed in the evidence's assumptions. "
-             "Known findings F27, F28 are replayed on every run; F23-F25 were found by this check and are fixed in /repo."),
-    "design_ref": "DESIGN.md section 6 C05, Appendix A, Appendix C",
+                  "backtrack/cut/reset semantics) and of the Display printer: parse(print x ++ rest) = ok x rest for every "
+                  "construct, by structural induction + differential correspondence of trees, spans, error offsets and formatted "
+                  "text against the real parse_ledger / okane format on grammar-directed and malformed text, with the property's "
+                  "own oracles evaluated on the real code"),
+    "text": ("PARTIAL. Proof (Lean, all trees, any display-width function): C05_entry - every entry of every kind that satisfies "
+             "the decidable predicates wfEntry and plainEntry is read back from its printed form: transactions (header with date, "
+             "effective date, clear mark, code, payee, inline metadata; postings with clear mark, account, value expressions of any "
+             "nesting with each number's sign, digits, decimal places and grouping, lot price / date / note in all eight "
+             "combinations, `@` and `@@` costs, balance assertions, tag / key-value / comment metadata lines), `account` and "
+             "`commodity` declarations with comment / note / alias / format sub-directives, `include`, `apply tag`, `end apply "
+             "tag`, top-level comments; C05_format_parse / C05_roundtrip / C05_idempotent (C05_format_fixed): the entry loop of "
+             "parse_ledger composed with FormatOptions::format gives parse(format t) = parse t and format(format t) = format t "
+             "for every text whose parsed entries are wfEntry and plainEntry. The value-expression round trip is "
+             "ExprParse.parse_print_follow (precedence and left associativity, see C08); numbers use the literal theorems of C07. "
+             "C05_decl_merge: adjacent comment / note sub-directives re-read merged and the printed text is still a fixed point of "
+             "format. The character classes of the parser model are proved equal to the sets spelled out in the Rust source now "
+             "(ParamsTie, regenerated from /repo on every run). Full statements kept visible and refuted from kernel-evaluated "
+             "witnesses: C05_entry_full with wfEntry alone is false (`(-1)`: a negative literal in operand position re-reads as "
+             "a negation; the parser never builds such a tree; C05_entry_full_false), not_C05_image_full / "
+             "not_C05_roundtrip_full / not_C05_idempotent_full (known findings F27 / F28: Unicode white space the parser does not "
+             "treat as blank), not_C05_eof_full (account + one blank at end of file, outside the grammar). NOT carried by "
+             "theorems, only by the correspondence stream and the oracles on the real code: the image property (every tree the "
+             "parser returns is wfEntry and plainEntry up to canonEntry - evaluated by the driver on every accepted text) and "
+             "the acceptance of the documented grammar (oracle: every grammar-derived text, also with its last line ended by "
+             "end of file, is accepted by the real parser). The model parser agrees with the real one on trees, entry spans, "
+             "error offsets/line_start and formatted output on every generated text."),
+    "note": ("winnow 0.7.6 combinators, chrono date acceptance, Rust str::trim*/lines and unicode-width are modelled, not verified; "
+             "value expressions and numeric literals are the models of C07/C08 (Okane.ExprSyntax, Okane.Literal). doc/syntax.md is "
+             "read with the repairs of evident informalities listed in the evidence's assumptions. Known findings F27, F28 are "
+             "replayed on every run; F23-F25 were found by this check and are fixed in /repo."),
+    "design_ref": "DESIGN.md section 6 C05, Appendix C, section 10",
 }
 
 THEOREMS = ["Okane.ParamsTie.nonCommodityChars_tie", "Okane.ParamsTie.isCommodityChar_tie", "Okane.ParamsTie.commentPrefix_tie",
@@ -46,7 +50,13 @@ THEOREMS = ["Okane.ParamsTie.nonCommodityChars_tie", "Okane.ParamsTie.isCommodit
             "Okane.Unparse.repeat0Loop_list", "Okane.Unparse.include_rt", "Okane.Unparse.applyTag_rt",
             "Okane.Unparse.endApplyTag_rt", "Okane.Unparse.topComment_rt", "Okane.Unparse.metadataTags_rt",
             "Okane.Unparse.metadataKv_rt", "Okane.Unparse.metaLine_rt", "Okane.Unparse.restOfLine_rt",
-            "Okane.Unparse.accountLoop", "Okane.Unparse.postingAccount_rt"]
+            "Okane.Unparse.accountLoop", "Okane.Unparse.postingAccount_rt",
+            "Okane.C05.C05_entry", "Okane.C05.C05_entry_nonTxn", "Okane.C05.C05_roundtrip", "Okane.C05.C05_format_fixed",
+            "Okane.C05.C05_roundtrip_nonTxn", "Okane.C05.C05_decl_merge", "Okane.C05.C05_entry_full_false",
+            "Okane.Unparse.entryRT_account", "Okane.Unparse.entryRT_commodity", "Okane.Unparse.amount_rt",
+            "Okane.Unparse.posting_rt_plain", "Okane.Unparse.transaction_rt_plain", "Okane.Unparse.entryRT_txn_plain",
+            "Okane.Unparse.lot_rt", "Okane.Unparse.cost_rt", "Okane.Unparse.blockMetadata_rt", "Okane.Unparse.date_rt",
+            "Okane.ExprParse.parse_print_follow"]
 
 # ------------------------------------------------------------------------------------------------
 # alphabets
